@@ -430,6 +430,7 @@ func main() {
 		Setup: func() {
 			rec.Install()
 			sched.Install()
+			rec.DefaultScribble = true // the observer appends to the slices it is handed (see rec.Scribble)
 		},
 		Exhaustive: func(tier string) string {
 			if tier == "thorough" {
